@@ -162,7 +162,14 @@ def pool_L(E, env):
     return {"s": c, "e1": E.Multiply(c, E.NthPower(x, 2)), "e2": E.Add(E.Multiply(d, y), c), "e3": E.Power(x, d), "d": d}
 
 
-POOLS = {"L": pool_L, "K": pool_K, "J": pool_J, "I": pool_I, "H": pool_H, "G": pool_G, "F": pool_F, "A": pool_A, "B": pool_B, "C": pool_C, "D": pool_D, "E": pool_E}
+def pool_M(E, env):
+    # products WITHOUT a reciprocal factor that contain a factor in reduced-but-not-normal form (Add(u, Negation(v)))
+    x, y = E.Variable("x"), E.Variable("y")
+    a = E.Add(y, E.Negation(x))
+    return {"s": a, "e1": E.Multiply(x, a), "e2": E.Exponential(E.Multiply(x, a)), "e3": E.Multiply(E.Sine(a), y, a), "n": E.Add(x, E.Negation(E.Multiply(y, a)))}
+
+
+POOLS = {"M": pool_M, "L": pool_L, "K": pool_K, "J": pool_J, "I": pool_I, "H": pool_H, "G": pool_G, "F": pool_F, "A": pool_A, "B": pool_B, "C": pool_C, "D": pool_D, "E": pool_E}
 CREATORS = ("mk", "mkexpr")
 
 
